@@ -41,11 +41,18 @@ struct Monitor {
    std::vector<int> apiR, apiW;              // per thread: holds according to what the public calls RETURNED (no events involved)
    void D(const std::string & s) {if (drifts.size() < 3) drifts.push_back(s);}
    // does the public API agree that thread o may hold the lock right now?  (a thread inside a call may have taken / given up a hold already)
-   bool ApiMayHoldRead(int o) const  {return (apiR[o] > 0)||((curOp[o] >= OP_LR)&&(curOp[o] <= OP_LRTIMED));}
-   bool ApiMayHoldWrite(int o) const {return (apiW[o] > 0)||((curOp[o] >= OP_LW)&&(curOp[o] <= OP_LWTIMED));}
-   void Reset(int n, bool p) {nt = n; prefer = p; apiR.assign(n, 0); apiW.assign(n, 0); drifts.clear(); rd.assign(n, 0); wr.assign(n, 0); callStart.assign(n, 0); queuedWriters.clear(); curOp.assign(n, OP_NONE); expired.assign(n, false); rdAtStart.assign(n, 0); wrAtStart.assign(n, 0); seq = 0; violations.clear(); known.clear();}
+   // (a thread inside an unlock call may have given the hold up already; a thread inside a lock call may have taken it already)
+   std::vector<int> acqRIn, acqWIn;          // acquisitions announced by events during the call that is in flight
+   bool ApiMayHoldRead(int o) const  {return (apiR[o]-((curOp[o] == OP_UR) ? 1 : 0) > 0)||((curOp[o] != OP_NONE)&&(acqRIn[o] > 0));}
+   bool ApiMayHoldWrite(int o) const {return (apiW[o]-((curOp[o] == OP_UW) ? 1 : 0) > 0)||((curOp[o] != OP_NONE)&&(acqWIn[o] > 0));}
+   void Reset(int n, bool p) {nt = n; prefer = p; apiR.assign(n, 0); apiW.assign(n, 0); acqRIn.assign(n, 0); acqWIn.assign(n, 0); drifts.clear(); evViolations.clear(); rd.assign(n, 0); wr.assign(n, 0); callStart.assign(n, 0); queuedWriters.clear(); curOp.assign(n, OP_NONE); expired.assign(n, false); rdAtStart.assign(n, 0); wrAtStart.assign(n, 0); seq = 0; violations.clear(); known.clear();}
    void V(const std::string & s) {if (violations.size() < 5) violations.push_back(s);}
-   void OpBegin(int t, int op) {curOp[t] = op; expired[t] = false; rdAtStart[t] = rd[t]; wrAtStart[t] = wr[t]; callStart[t] = seq;}
+   // a violation that rests on the code's own events (holds and queue positions as announced by RelR / AcqR / QueueW ...): it stands only if
+   // in this execution the events' bookkeeping never disagreed with the results of the public calls (see Finalize)
+   std::vector<std::string> evViolations;
+   void VE(const std::string & s) {if (evViolations.size() < 5) evViolations.push_back(s);}
+   void Finalize() {for (size_t i=0; i<evViolations.size(); i++) {if (drifts.empty()) V(evViolations[i]); else if (drifts.size() < 6) drifts.push_back(evViolations[i]+" (according to the code's events, whose bookkeeping disagrees with the results of the calls in this execution)");} evViolations.clear();}
+   void OpBegin(int t, int op) {acqRIn[t] = acqWIn[t] = 0; curOp[t] = op; expired[t] = false; rdAtStart[t] = rd[t]; wrAtStart[t] = wr[t]; callStart[t] = seq;}
    void OpEnd(int t, int op, bool ok)
    {
       char b[200];
@@ -77,13 +84,13 @@ struct Monitor {
       char b[200]; seq++;
       if ((t < 0)||(t >= nt)) return;
       if (n == "AcqR") {
-         for (int o=0; o<nt; o++) if ((o != t)&&(wr[o] > 0)) {snprintf(b, sizeof(b), "T%d acquired READ while T%d holds WRITE", t+1, o+1); if (ApiMayHoldWrite(o)) V(b); else D(std::string(b)+" according to the code's events only (T's calls have all returned and left it without a hold)");}
-         if ((prefer)&&(rd[t] == 0)&&(wr[t] == 0)) for (std::map<int,long>::iterator it = queuedWriters.begin(); it != queuedWriters.end(); ++it) if ((it->first != t)&&(it->second < callStart[t])) {snprintf(b, sizeof(b), "T%d acquired READ (call began at %ld) overtaking writer T%d waiting since %ld, with writer preference", t+1, callStart[t], it->first+1, it->second); V(b);}
-         rd[t]++;
+         for (int o=0; o<nt; o++) if ((o != t)&&(wr[o] > 0)) {snprintf(b, sizeof(b), "T%d acquired READ while T%d holds WRITE", t+1, o+1); if (ApiMayHoldWrite(o)) VE(b); else D(std::string(b)+" according to the code's events only (T's calls have all returned and left it without a hold)");}
+         if ((prefer)&&(rd[t] == 0)&&(wr[t] == 0)) for (std::map<int,long>::iterator it = queuedWriters.begin(); it != queuedWriters.end(); ++it) if ((it->first != t)&&(it->second < callStart[t])) {snprintf(b, sizeof(b), "T%d acquired READ (call began at %ld) overtaking writer T%d waiting since %ld, with writer preference", t+1, callStart[t], it->first+1, it->second); VE(b);}
+         rd[t]++; acqRIn[t]++;
       }
       else if (n == "AcqW") {
-         for (int o=0; o<nt; o++) if (o != t) { if (wr[o] > 0) {snprintf(b, sizeof(b), "T%d acquired WRITE while T%d holds WRITE", t+1, o+1); if (ApiMayHoldWrite(o)) V(b); else D(std::string(b)+" according to the code's events only");} if (rd[o] > 0) {snprintf(b, sizeof(b), "T%d acquired WRITE while T%d holds READ", t+1, o+1); if (ApiMayHoldRead(o)) V(b); else D(std::string(b)+" according to the code's events only");} }
-         wr[t]++; queuedWriters.erase(t);
+         for (int o=0; o<nt; o++) if (o != t) { if (wr[o] > 0) {snprintf(b, sizeof(b), "T%d acquired WRITE while T%d holds WRITE", t+1, o+1); if (ApiMayHoldWrite(o)) VE(b); else D(std::string(b)+" according to the code's events only");} if (rd[o] > 0) {snprintf(b, sizeof(b), "T%d acquired WRITE while T%d holds READ", t+1, o+1); if (ApiMayHoldRead(o)) VE(b); else D(std::string(b)+" according to the code's events only");} }
+         wr[t]++; acqWIn[t]++; queuedWriters.erase(t);
       }
       else if (n == "RelR") { if (rd[t] <= 0) {snprintf(b, sizeof(b), "T%d's events release a READ hold that its events never took", t+1); D(b);} else rd[t]--; }
       else if (n == "RelW") { if (wr[t] <= 0) {snprintf(b, sizeof(b), "T%d's events release a WRITE hold that its events never took", t+1); D(b);} else wr[t]--; }
@@ -99,7 +106,7 @@ struct Monitor {
       if ((IsTry(curOp[t]))||(expired[t])) {
          snprintf(b, sizeof(b), "T%d blocks in Wait() inside %s %s", t+1, OPN[curOp[t]], IsTry(curOp[t])?"(a try call)":"after its deadline passed");
          // known finding F8timed: restore phase of a *timed* LockReadWrite upgrade by a thread that held read locks
-         if ((curOp[t] == OP_LWTIMED)&&(expired[t])&&(rdAtStart[t] > 0)&&(wrAtStart[t] == 0)) {if (known.size() < 3) known.push_back(std::string("F8timed: ")+b);}
+         if ((curOp[t] == OP_LWTIMED)&&(expired[t])&&(apiR[t] > 0)&&(apiW[t] == 0)) {if (known.size() < 3) known.push_back(std::string("F8timed: ")+b);}     // (holds by the results of the thread's calls: they do not change while a call is in flight)
          else V(b);
       }
    }
@@ -275,6 +282,7 @@ static int Replay(const char * inFile, bool prefer, const char * outFile)
          drifted++;
       }
       ysteps += vs::S.steps;
+      M.Finalize();
       if ((!M.violations.empty())||(cannotFollow)||(!M.known.empty())||(!M.drifts.empty())) {
          mj::Value rec = mj::Value::Obj(); rec.set("behaviour", mj::Value::Int(beh["id"].i())); rec.set("prefer", mj::Value::Bool(prefer));
          if (!M.drifts.empty()) {mj::Value da = mj::Value::Arr(); for (size_t k=0; k<M.drifts.size(); k++) da.push(mj::Value::Str(M.drifts[k])); rec.set("monitor_drift", da);}
@@ -329,6 +337,7 @@ static int Explore(uint32 iters, int nt, int nops, uint32 seed0, int preferSel, 
          FeedMonitor(); execs++; ysteps += vs::S.steps; nevents += (long) vs::S.events.size();
          if (!ok) {stranded++; M.V(std::string("STRANDED: no thread can run although every finished thread released what it held:") + vs::S.blockedDesc);}
          else QuiescenceProbe(nt);
+         M.Finalize();
          if ((!M.violations.empty())||(!M.known.empty())||(!M.drifts.empty())) {
             mj::Value rec = mj::Value::Obj(); rec.set("seed", mj::Value::Int(seed)).set("prefer", mj::Value::Bool(prefer == 1)).set("threads", mj::Value::Int(nt));
             if (!M.drifts.empty()) {mj::Value da = mj::Value::Arr(); for (size_t k=0; k<M.drifts.size(); k++) da.push(mj::Value::Str(M.drifts[k])); rec.set("monitor_drift", da);}
